@@ -58,7 +58,7 @@ package cronschedule
 //@   tags C01
 //@   safety nil
 //@   requires swf(s)
-//@   modifies *s.jobConfigs.pq, arrays(*heap.Item), mapof(s.jobConfigs.pq.names), heap(heap.Item)
+//@   modifies s.jobConfigs.pq.queue, arrays(*heap.Item), mapof(s.jobConfigs.pq.names), heap(heap.Item)
 //@   ensures [C01] keeps-wf: swf(s)
 //@   ensures [C01] never-early: result2 ==> ns(result1) <= ns(fromTime)
 //@   ensures [C01] pops-earliest: result2 ==> old(due(s, result0)) && ns(result1) == old(dueAt(s, result0)) * 1000000000
@@ -71,7 +71,7 @@ package cronschedule
 //@ func Schedule.Delete
 //@   tags C01, C03
 //@   requires swf(s) && jobConfig != nil
-//@   modifies *s.jobConfigs.pq, arrays(*heap.Item), mapof(s.jobConfigs.pq.names), heap(heap.Item)
+//@   modifies s.jobConfigs.pq.queue, arrays(*heap.Item), mapof(s.jobConfigs.pq.names), heap(heap.Item)
 //@   ensures [C01,C03] result == nil && swf(s)
 //@   ensures [C01,C03] removed: forall x string :: due(s, x) == (old(due(s, x)) && x != nsname(jobConfig.Namespace, jobConfig.Name))
 //@   ensures [C01,C03] others-untouched: forall x string :: due(s, x) ==> dueAt(s, x) == old(dueAt(s, x))
@@ -103,7 +103,7 @@ package cronschedule
 //@ func Schedule.Bump
 //@   tags C01, C03
 //@   requires swf(s) && jobConfig != nil
-//@   modifies *s.jobConfigs.pq, arrays(*heap.Item), mapof(s.jobConfigs.pq.names), heap(heap.Item)
+//@   modifies s.jobConfigs.pq.queue, arrays(*heap.Item), mapof(s.jobConfigs.pq.names), heap(heap.Item)
 //@   ensures [C01,C03] keeps-wf: swf(s)
 //@   ensures [C01,C03] others-untouched: forall x string :: x != jcKey(jobConfig) ==> due(s, x) == old(due(s, x)) && (due(s, x) ==> dueAt(s, x) == old(dueAt(s, x)))
 //@   ensures [C01,C03] error-changes-nothing: result1 != nil ==> (due(s, jcKey(jobConfig)) == old(due(s, jcKey(jobConfig)))
@@ -112,5 +112,6 @@ package cronschedule
 //@   ensures [C01,C03] no-next-removed: result1 == nil && result0.IsZero() ==> !due(s, jcKey(jobConfig))
 //@   ensures [C01,C03] next-strictly-later: result1 == nil && !result0.IsZero() ==> scheduled(jobConfig) && ns(result0) > ns(fromTime)
 //@        && due(s, jcKey(jobConfig)) && dueAt(s, jcKey(jobConfig)) == result0.Unix()
+//@   ensures [C01] whole-second: result1 == nil ==> ns(result0) == result0.Unix() * 1000000000
 //@   ensures [C01,C03] next-is-the-schedules-next: result1 == nil && scheduled(jobConfig) ==>
 //@        (exists e cron.Expression, tz *time.Location :: tz != nil && result0 == nextSpec(jobConfig, e, fromTime.In(tz)))
